@@ -78,7 +78,9 @@ def call_pool(rng, n_per_kind):
     for p, fmt, _ in files:
         if os.path.getsize(p) > 300000:
             continue
-        if seen.get(fmt, 0) >= n_per_kind:
+        # small files are cheap: several per format, so that two dialects of one format (an extended XYZ file with and one
+        # without a Z column, ...) meet in one history
+        if seen.get(fmt, 0) >= (n_per_kind if os.path.getsize(p) > 20000 else max(4, 3 * n_per_kind)):
             continue
         seen[fmt] = seen.get(fmt, 0) + 1
         calls.append({"kind": "load_one", "path": p, "fmt": fmt})
